@@ -752,6 +752,12 @@ class Machine:
                 return recv.strip()
             if name == "replace" and len(args) == 2 and all(isinstance(a_, str) for a_ in args):
                 return recv.replace(args[0], args[1])
+            if name == "replacen" and len(args) == 3 and all(isinstance(a_, str) for a_ in args[:2]):
+                return recv.replace(args[0], args[1], int(args[2]))
+            if name in ("to_lowercase", "to_ascii_lowercase"):
+                return recv.lower()
+            if name in ("to_uppercase", "to_ascii_uppercase"):
+                return recv.upper()
             if name == "starts_with":
                 return recv.startswith(args[0])
             if name == "ends_with":
